@@ -739,6 +739,22 @@ def monOp0 (m : Mon) (op : String) (args : List String) (impl : List String) (tr
       let (m, v, _) := toks.foldl step (m, "ok", toks)
       -- C16: what the peer wrote on a connection that stayed up throughout - whole messages, no silence, no end of stream - has all been
       -- taken off it, message by message, by the time the reader waits again (however the writes reached it)
+      -- C16: a burst - everything the peer writes in this episode is on ONE connection before the reader gets to read - : what is
+      -- taken off that connection is a prefix of the framing of what was written: nothing behind an impossible length field, nothing
+      -- from the middle of a message (whatever is written is gone with the connection once the reader gives it up)
+      let v := if v ≠ "ok" then v else
+        match evs0 with
+        | "b" :: ws =>
+          if !(ws.all (·.startsWith "w:")) then v else
+          (match parseEvs evs0 with
+           | some evs =>
+             let data := Stream.dataOf evs
+             let frames := (Stream.framesOut (data.length + 1) data).filterMap fun | .pkt b => some b | _ => none
+             let got := toks.filterMap fun t => if t.startsWith "got:" then ofHex (t.drop 4).toString else none
+             if got.length ≤ frames.length && frames.take got.length == got then v
+             else "bad C16:octets-that-are-no-message-of-the-stream-were-taken-off-the-connection-as-one"
+           | none => v)
+        | _ => v
       let v := if v ≠ "ok" then v else
         match parseEvs evs0 with
         | some evs =>
